@@ -11,7 +11,6 @@ import (
 	"os"
 	"path/filepath"
 	"runtime"
-	"strings"
 	"testing"
 
 	"github.com/wollac/iota-crypto-demo/pkg/slip10"
@@ -169,7 +168,7 @@ func checkDerive(c deriveCase) (info h.Info, err error) {
 	if c.FailNew > 0 && c.FailNew <= masterRetries+1 {
 		info = h.Info{Class: "permanent-error/master", NT: true}
 		k, err := slip10.DeriveKeyFromPath(seed, cut, c.Path)
-		if !isPermanent(err) {
+		if !isPermanent(err, c.FaultKind) {
 			return info, fmt.Errorf("curve error (not ErrInvalidKey) in NewPrivateKey call %d: DeriveKeyFromPath returned %v, %v; want the curve's error", c.FailNew, k, err)
 		}
 		if cnt.calls != c.FailNew {
@@ -177,7 +176,7 @@ func checkDerive(c deriveCase) (info h.Info, err error) {
 		}
 		fresh, _, _ := curves(c) // new instance with the same injected fault
 		k2, err := slip10.NewMasterKey(seed, fresh)
-		if !isPermanent(err) {
+		if !isPermanent(err, c.FaultKind) {
 			return info, fmt.Errorf("NewMasterKey with a permanent curve error returned %v, %v", k2, err)
 		}
 		return info, nil
@@ -228,7 +227,7 @@ func checkDerive(c deriveCase) (info h.Info, err error) {
 		if c.FailShift > 0 && c.FailShift <= shiftCalls+next.Retries+1 {
 			info = h.Info{Class: "permanent-error/child", NT: true}
 			child, err := key.DeriveChild(idx)
-			if !isPermanent(err) {
+			if !isPermanent(err, c.FaultKind) {
 				return info, fmt.Errorf("curve error (not ErrInvalidKey) in Shift call %d: DeriveChild returned %v, %v; want the curve's error", c.FailShift, child, err)
 			}
 			return info, nil
@@ -313,18 +312,20 @@ func wrapped(c deriveCase) string {
 	return ""
 }
 
-// isPermanent: the curve's error came back to the caller (wrapped with %w or quoted in the message).
-func isPermanent(err error) bool {
+// isPermanent: the curve's error came back to the caller: the error value itself or an error wrapping it
+// (errors.Is finds it). A new error that only quotes its text is not the curve's error: the caller can no
+// longer tell it from anything else.
+func isPermanent(err error, kind int) bool {
 	if err == nil {
 		return false
 	}
-	for k := 0; k < 4; k++ {
-		pe := permanentError(k)
-		if errors.Is(err, pe) || strings.Contains(err.Error(), pe.Error()) {
-			return true
-		}
+	switch kind {
+	case 1, 3:
+		return errors.Is(err, slip10.ErrNotHardened)
+	case 2:
+		return errors.Is(err, slip10.ErrHardenedChildPublicKey)
 	}
-	return false
+	return errors.Is(err, errPermanent)
 }
 
 // cut2 returns a fresh instance of the curve under test without fault injection.
